@@ -38,8 +38,37 @@ TRUSTED_BASE = ["Flocq 4 BinarySingleNaN (executable binary64 definitions; the s
 KERNEL_SAMPLE = {"quick": 150, "thorough": 1500}
 KERNEL_MAXLEN = 160
 MANIFEST = dict(
-    text="pending",
-    design="DESIGN.md section 5 C10", note="pending", technique="Rocq/Coq proof + model/implementation correspondence check")
+    text="Coq theorems over hand-written models of the datum printer (cell.rs Display, char.rs, number.rs Display), the "
+         "scanner, the parser with its literal decoders, and Heap::put_cell/get_as_cell: (a) for EVERY code point c the written "
+         "character literal is one Char token (also before a delimiter) and parse_char inverts the printer (the named arms of "
+         "char.rs after is_control are unreachable); (b) for every text of scalar values the written string is one String "
+         "token and parse_string gives the text back; (c) booleans, the reader's symbols (spelling = one Symbol token, or one "
+         "Number token failing the radix-10 parse), exact numbers in every representation (through the C16 lemmas) and finite "
+         "doubles (relative to the three OPEN statements of C16 about std's float formatting) are leaf tokens that read back; "
+         "(e) composite write_read: for every readable datum - atoms, proper/improper lists, quote forms, vectors, nested "
+         "without bound - parse_text (write d) = Ok (reread_cell d, None), where reread_cell only normalises the representation "
+         "of exact numbers (same value and exactness), and write_stable: write (reread_cell d) = write d; (d) heap round trip: "
+         "on every heap satisfying the C18 interning invariant put_cell stores every heap datum and get_as_cell returns it "
+         "unchanged. The recorded class prefix-path-symbol is refuted by a kernel-checked witness ('#b12). Tied to /repo by a "
+         "3-way differential (impl / extracted model / vm_compute) on data BUILT from a wire encoding (all 1.1 M scalar values "
+         "exhaustively in the thorough tier) and on source texts, with an independent Python oracle on the implementation's output.",
+    design="DESIGN.md section 5 C10",
+    note="OPEN (kept as Definitions in Props/C10.v): C10_quote_eval_vm_stmt - evaluating (quote d) on the booted model machine "
+         "returns d (proved: the heap round trip it rests on; checked in-kernel on an example and by wire interface 8 on every "
+         "generated datum; missing: the trip through transform/compile/run); the three std float statements "
+         "C10_std_roundtrip_stmt, C10_display_point_stmt, C10_no_inner_minus_stmt (= the OPEN statements of C16, hypotheses of "
+         "C10_write_read / C10_float_atom; a datum without floats does not use them in substance). The general "
+         "show_hex/parse_hex_u32 inverse is proved for the 65 control characters (the only hex-escaped ones) by kernel "
+         "computation. Known finding prefix-path-symbol (open, not small: parse_number accepts any token after a number "
+         "prefix). Trusted: Coq kernel; hand-written model tied by sampling correspondence (exhaustive over scalar values in "
+         "thorough); std float formatting/parsing as specified in Model/F64Fmt.v; Rust harness building Cell values and the "
+         "structural dump; extraction + OCaml driver (cross-checked in-kernel); Python oracle. Axioms: character, string, "
+         "heap and write_stable theorems are closed under the global context; statements that mention the parser inherit the "
+         "four standard real-number axioms through Flocq's binary64 definitions in the number-literal decoder "
+         "(Classical_Prop.classic, ClassicalDedekindReals.sig_forall_dec, sig_not_dec, "
+         "FunctionalExtensionality.functional_extensionality_dep).",
+    technique="Rocq/Coq proof (finite reflection over control characters, induction over texts and data, a separable-token "
+              "rendering invariant, a logical relation over heap extensions) + model/implementation correspondence check")
 
 I64_MIN, I64_MAX = -2**63, 2**63 - 1
 I32_MIN, I32_MAX = -2**31, 2**31 - 1
